@@ -8,7 +8,6 @@ Oracle : NumPy (np.abs, np.linalg.norm, np.arctan2) for the real parts, analytic
          hand-derived derivatives of those closed forms for jax.grad ; implementation-independent brackets.
 """
 import itertools
-import math
 
 import numpy as np
 
